@@ -102,5 +102,9 @@ func ToString(err *Error) string {
 }
 
 func space(l int) string {
+	if l < 0 {
+		// empty source and target ids (e.g. an empty path segment) have no padding
+		l = 0
+	}
 	return strings.Repeat(" ", l)
 }
